@@ -207,7 +207,11 @@ def run(tier, seed):
     two = '{"keep", "clear"}' if tier == "quick" else '{"keep", "clear", "keepStop"}'
     res2 = tc.mc(cfg_space(tier, two), maxinj=0 if tier == "quick" else 1, invariants=inv, timeout=3400)
     chk.add_tlc(res2, "Train.tla periodic callbacks, second fit() on the same callback objects")
-    for r in (res, res2):
+    # a first run ended by an exception raised in a user callback at any event (no stop injected), then a second
+    # fit() on the same objects with nothing reset in between
+    res3 = tc.mc(cfg_space(tier, '{"abort"}'), maxinj=0, invariants=inv, timeout=3400)
+    chk.add_tlc(res3, "Train.tla periodic callbacks, fit() after a run aborted by a raising user callback")
+    for r in (res, res2, res3):
         if r.violation:
             chk.violation("spec:" + str(r.violation), dict(tlc=r.raw[-4000:]))
             return chk.finish()
@@ -215,6 +219,10 @@ def run(tier, seed):
     nrep = 600 if tier == "quick" else 20000
     if len(behs) > nrep:
         behs = rng.sample(behs, nrep)
+    ab = [b for b in res3.exports if b["carry"] and b["carry"]["hist"] and b["carry"]["hist"][-1]["k"] == "RZ"]
+    nab = 250 if tier == "quick" else 6000
+    behs += rng.sample(ab, nab) if len(ab) > nab else ab
+    chk.extra["aborted_first_runs_replayed"] = min(len(ab), nab)
     for n, beh in enumerate(behs):
         cfg = beh["cfg"]
         carry = beh["carry"]
@@ -235,7 +243,7 @@ def run(tier, seed):
                         o.clear_history()
                 # clear_history empties records and `last`
                 check_accessors(chk, cfg1, real1, [[] for _ in cfg["cbs"]], "replay:after-clear")
-            if carry["again"] != "keepStop":
+            if carry["again"] not in ("keepStop", "abort"):
                 real1["nn_state"].stop_training = False
             real = trainrun.real_run(cfg, plan=trainrun.plan_from_hist(beh["hist"]),
                                      force=trainrun.draws_from_hist(beh["hist"]), seed=seed + n, k=1, prev=real1)
